@@ -108,6 +108,19 @@ def h_part(params, x: str, y: str):
     require(version_compare(b, a) == -want, "antisymmetry", a=a, b=b)
 
 
+def h_part_sym(params, x: str, y: str):
+    """Engine-A counterpart of the kernel lemma (works on any implementation, also one that engine C
+    cannot encode): symbolic parts over the version alphabet, embedded as upstream versions."""
+    assume(len(x) == params["la"])
+    assume(len(y) == params["lb"])
+    ok = True
+    for ch in x + y:
+        o = ord(ch)
+        ok = ok & (((48 <= o) & (o <= 57)) | ((65 <= o) & (o <= 90)) | ((97 <= o) & (o <= 122)) | (o == 43) | (o == 46) | (o == 126))
+    assume(ok)
+    h_part(params, x, y)
+
+
 def h_hash(params, a: str, b: str):
     pa, pb = spec_parse(a), spec_parse(b)
     assume(pa is not None and pa != "edge" and pb is not None and pb != "edge")
@@ -370,6 +383,16 @@ def lemma_hash(params):
         return out
     q.s.add(*(ca + cb + P.alphabet(a, REV_RANGES) + P.alphabet(b, REV_RANGES)))
     q.s.add(P.I(impl) == 0, z3.Not(P.B(P.str_eq(a, b))), z3.Not(P.B(it.exc)))
+    # one *reason* for equality per call (params["reason"]), so that every known way of spelling an
+    # equal version differently is exercised, not only the solver's favourite
+    reason = params.get("reason", "any")
+    last_a = z3.IntVal(0)
+    for i, c in enumerate(a.ch):
+        last_a = z3.If(P.I(a.len) == i + 1, c, last_a)
+    if reason == "implicit-zero":          # a ends in a non-digit run, b spells the implied 0 out
+        q.s.add(z3.Not(z3.And(last_a >= 48, last_a <= 57)), P.I(b.len) == P.I(a.len) + 1)
+    elif reason == "leading-zero":
+        q.s.add(P.I(b.len) > P.I(a.len), z3.And(last_a >= 48, last_a <= 57))
     found = 0
     forms = [lambda x, y: (x, y), lambda x, y: ("1-" + x, "1-" + y), lambda x, y: ("0:" + x, x + "-0"),
              lambda x, y: (x + "-" + y, x + "-" + x), lambda x, y: ("3:" + x + "-" + x, "03:" + y + "-" + y)]
@@ -421,8 +444,15 @@ def partitions(tier, seed):
     P.append(dict(name="compare/n%d" % (2 if tier == "quick" else 3), kind="py", func="lemma_compare",
                   params=dict(n=2 if tier == "quick" else 3, timeout_ms=900000), budget=900,
                   bounds="epoch None or 1-2 digits; upstream 1..n chars; revision None or 1..n chars"))
-    P.append(dict(name="hash/pairs", kind="py", func="lemma_hash", params=dict(n=4, pairs=12 if tier == "quick" else 60),
-                  budget=300, bounds="solver-generated equal-but-different parts up to 4 chars, embedded in 5 version shapes"))
+    for reason in ("any", "implicit-zero", "leading-zero"):
+        P.append(dict(name="hash/pairs/%s" % reason, kind="py", func="lemma_hash",
+                      params=dict(n=4, pairs=12 if tier == "quick" else 60, reason=reason),
+                      budget=300, bounds="solver-generated equal-but-different parts up to 4 chars (%s), embedded in 5 version shapes" % reason))
+    for la in range(1, (3 if tier == "quick" else 4) + 1):
+        for lb in range(1, (3 if tier == "quick" else 4) + 1):
+            P.append(dict(name="part-vs-dpkg/%d-%d" % (la, lb), harness="h_part_sym", params=dict(la=la, lb=lb),
+                          budget=70 if tier == "quick" else 1500, reach=[],
+                          bounds="engine A: all parts |x|=%d |y|=%d over [A-Za-z0-9.+~] embedded as upstream versions, dpkg reference executed symbolically" % (la, lb)))
     P.append(dict(name="operators/n2", kind="py", func="lemma_ops", params=dict(n=2, timeout_ms=900000), budget=900,
                   bounds="the six rich-comparison methods vs the dpkg sign; epoch None or 1-2 digits, upstream/revision 1..2 chars"))
     L = 2 if tier == "quick" else 3
